@@ -119,6 +119,11 @@ class Impl:
             elif op == 'clear':
                 sh.clear()
                 c.clear(); r = None
+            elif op == 'delslice':
+                # `del c[a:b:k]` (a list's business: sets refuse slices); '-' is an omitted bound
+                a_, b_, k_ = [None if t == '-' else int(t) for t in ws[1:4]]
+                del sh[a_:b_:k_]
+                del c[a_:b_:k_]; r = None
             elif op == 'extend':
                 xs = [int(t) for t in ws[1:]]
                 for x in xs:
@@ -217,6 +222,10 @@ def all_ops(n, univ, unique):
     ops += [f'extend {x} {(x + 1) % univ} {x}' for x in range(univ)]
     ops += [f'setitem {i} {x}' for i in W for x in range(univ)]
     ops += [f'delitem {i}' for i in W]
+    if not unique:
+        # slice deletion, plain and extended, forwards and backwards, with and without bounds
+        B = ['-'] + [str(i) for i in range(-(n + 1), n + 2)]
+        ops += [f'delslice {a} {b} {k}' for a in B for b in B for k in (1, 2, -1, -2, 3)]
     return ops
 
 
@@ -246,6 +255,9 @@ def random_op(rng, n, univ, unique):
         return 'clear'
     if k < 0.8:
         return 'extend ' + ' '.join(str(rng.randrange(univ)) for _ in range(rng.randint(0, 4)))
+    if k < 0.84 and not unique:
+        bd = lambda: rng.choice(['-', str(rng.randint(-(n + 2), n + 2))])
+        return f'delslice {bd()} {bd()} {rng.choice([1, 2, 3, -1, -2, -3])}'
     if k < 0.9:
         return f'setitem {i} {x}'
     return f'delitem {i}'
